@@ -38,6 +38,8 @@ def strat_map(with_rot=False):
             y = draw(st.integers(10, 20))
             # 'parallel' pages: all ridges share one slope, so they stay >= 15 px apart although their bounding boxes overlap
             common = draw(st.sampled_from([None, None, 0.04, -0.06, 0.08, -0.1]))
+            # two-column pages: every band holds a line in the left and one in the right column on exactly the same row
+            two_col = common is None and W >= 120 and draw(st.integers(0, 4)) == 0
             if common is not None:
                 rise = int(abs(common) * W) + 2
                 H = H + rise
@@ -56,6 +58,17 @@ def strat_map(with_rot=False):
                                        asc=float(draw(st.integers(2, 12))), desc=float(draw(st.integers(1, 6))), amp=1.0,
                                        ends=draw(st.booleans()) and length >= 12))
                     y += draw(st.integers(16, 30))      # parallel ridges: >= 15 px apart everywhere, bounding boxes may overlap
+                    continue
+                if two_col:
+                    half = W // 2
+                    l1 = draw(st.integers(12, half - 22))
+                    xa = draw(st.integers(6, half - 14 - l1))
+                    l2 = draw(st.integers(12, half - 22))
+                    xb = half + 8 + draw(st.integers(0, half - 16 - l2 - 8))
+                    for xx, ll in ((xa, l1), (xb, l2)):
+                        ridges.append(dict(x0=xx, x1=xx + ll, y=float(y), slope=0.0, asc=float(draw(st.integers(2, 12))),
+                                           desc=float(draw(st.integers(1, 6))), amp=1.0, ends=draw(st.booleans())))
+                    y += draw(st.integers(22, 40))
                     continue
                 slope = draw(st.sampled_from([0.0, 0.0, 0.03, -0.05, 0.1, -0.1]))
                 # keep the sloped ridge inside its band
